@@ -1020,11 +1020,17 @@ def tab_cli_groups(run):
     false_t = [tg for v, tg in t["targets"] if v == "0"][0]
     treg = T.dominated_region(f, t["otherwise"], b)
     freg = T.dominated_region(f, false_t, b)
-    prints_true = [bi for bi, c in f.calls() if bi in treg and (c.get("callee") or "") == "std::io::_print" ]
+    prints_true = [bi for bi, c in f.calls() if bi in treg and ((c.get("callee") or "") == "std::io::_print" or (c.get("callee") or "").endswith("io::Write::write_all"))]
     printed_formatted = False
+    lossy = []
     for bi, c in f.calls():
         if bi in treg and "from_utf8_lossy" in (c.get("callee") or "") and any(value_depends_on(f, a, ft["dest"]["l"]) for a in c["args"]):
             printed_formatted = True
+            lossy.append(f.loc(c["span"]))
+        if bi in treg and (c.get("callee") or "").endswith("io::Write::write_all") and any(value_depends_on(f, a, ft["dest"]["l"]) for a in c["args"][1:]):
+            printed_formatted = True
+    run.check(not lossy, R, R + "|group|print-bytes-unchanged", f.loc(), "the printed output is the formatted bytes themselves",
+              "assemble_with_command prints the formatted output through String::from_utf8_lossy (%s): a raw binary output with bytes that are not valid UTF-8 (`#d8 0x80` with `-f binary -p`) is printed as other bytes (ef bf bd)" % ", ".join(lossy))
     run.check(wb in freg and wb not in treg, R, R + "|group|write-only-when-not-printing", f.loc(wt["span"]),
               "the file is written only on the `!printout` edge", "write_bytes is not confined to the `!printout` edge")
     run.check(bool(prints_true) and printed_formatted, R, R + "|group|print-when-printing", f.loc(),
